@@ -81,6 +81,7 @@ var jsonSrcs = []string{
 
 var senSrcs = []string{
 	`{a:abc b:'q' c:[x y z]}`, `[+ "a"]`, `["a" + "b"]`, `["a" +`, `{a:"b" + `, `fun(1 2`, `f(1 2)`, `[f(1) g(`, `{a:1 // c`, `[1 /* c`, `{a:{b:{c:`, `[x`, `{x`, `{x:`, `abc`, `[tru`, `{a:tr`, `'single`, `[a b c]`, `{k:"v"}{`, `[1 2] [3`,
+	`{msg: "total: " + count}`, `["abc" + 1]`, `["abc" +`, `[a "b"]`, `["x" "y"]`,
 }
 
 var parseModes = []string{"", "cbbool", "cb", "chan", "numfloat", "numstr", "reader", "reader1", "readererr", "cbpanic", "cbstop"}
@@ -193,13 +194,33 @@ func guardO(f func() outcome) (o outcome) {
 }
 
 // runParse drives a parser-shaped API in a given mode.
-func runParse(c call, parse func(buf []byte, args ...any) (any, error), read func(r jsongenReader, args ...any) (any, error), mkcb func(docs *[]string, stop, boom bool) any, mkchan func(docs *[]string) (any, func())) outcome {
+func runParse(c call, parse func(buf []byte, args ...any) (any, error), read func(r jsongenReader, args ...any) (any, error), mkcb func(docs *[]string, stop, boom bool) any, mkchan func(docs *[]string) (any, func()), unm ...func([]byte, any) error) outcome {
 	return guardO(func() outcome {
 		var docs []string
 		var v any
 		var err error
 		in := []byte(c.Src)
 		switch c.Mode {
+		case "unmarshal":
+			// Unmarshal switches the parser to ForceFloat for the call; into an untyped target
+			var t any
+			err = unm[0](in, &t)
+			v = t
+		case "unmarshalT":
+			// into a typed target: the recompose step fails for most documents
+			var t struct {
+				A []string
+				C int
+			}
+			err = unm[0](in, &t)
+			v = fmt.Sprint(t)
+			if err != nil {
+				// which field fails first (and what was set before) follows the recomposer's map order:
+				// only the fact of the error is comparable
+				if _, isParse := err.(*oj.ParseError); !isParse {
+					v, err = nil, errors.New("recompose error")
+				}
+			}
 		case "reader":
 			v, err = read(bytes.NewReader(in))
 		case "reader1":
@@ -436,10 +457,11 @@ func subjects() []*subject {
 		})
 	}
 	return []*subject{
-		{name: "oj.Parser", cover: "subject:oj.Parser", fresh: func() any { return &oj.Parser{} }, calls: parseCalls(jsonSrcs, parseModes),
+		{name: "oj.Parser", cover: "subject:oj.Parser", fresh: func() any { return &oj.Parser{} }, calls: parseCalls(jsonSrcs, append(append([]string{}, parseModes...), "unmarshal", "unmarshalT")),
 			run: func(i any, c call) outcome {
 				p := i.(*oj.Parser)
-				return runParse(c, p.Parse, func(r jsongenReader, a ...any) (any, error) { return p.ParseReader(r, a...) }, simpleCB, simpleChan)
+				return runParse(c, p.Parse, func(r jsongenReader, a ...any) (any, error) { return p.ParseReader(r, a...) }, simpleCB, simpleChan,
+					func(b []byte, vp any) error { return p.Unmarshal(b, vp) })
 			}},
 		{name: "oj.Parser(Reuse)", cover: "subject:oj.Parser", reuse: true, fresh: func() any { return &oj.Parser{Reuse: true} }, calls: parseCalls(jsonSrcs, []string{"", "cbbool", "reader1", "readererr", "cbpanic", "numstr"}),
 			run: func(i any, c call) outcome {
@@ -452,10 +474,11 @@ func subjects() []*subject {
 				return runParse(c, func(b []byte, a ...any) (any, error) { n, e := p.Parse(b, a...); return n, e },
 					func(r jsongenReader, a ...any) (any, error) { n, e := p.ParseReader(r, a...); return n, e }, genCB, genChan)
 			}},
-		{name: "sen.Parser", cover: "subject:sen.Parser", fresh: func() any { p := &sen.Parser{}; senTF(p); return p }, calls: parseCalls(all, []string{"", "cbbool", "chan", "reader", "reader1", "readererr", "cbpanic", "cbstop"}),
+		{name: "sen.Parser", cover: "subject:sen.Parser", fresh: func() any { p := &sen.Parser{}; senTF(p); return p }, calls: parseCalls(all, []string{"", "cbbool", "chan", "reader", "reader1", "readererr", "cbpanic", "cbstop", "unmarshal", "unmarshalT"}),
 			run: func(i any, c call) outcome {
 				p := i.(*sen.Parser)
-				return runParse(c, p.Parse, func(r jsongenReader, a ...any) (any, error) { return p.ParseReader(r, a...) }, simpleCB, simpleChan)
+				return runParse(c, p.Parse, func(r jsongenReader, a ...any) (any, error) { return p.ParseReader(r, a...) }, simpleCB, simpleChan,
+					func(b []byte, vp any) error { return p.Unmarshal(b, vp) })
 			}},
 		{name: "oj.Tokenizer", cover: "subject:oj.Tokenizer", fresh: func() any { return &oj.Tokenizer{} }, calls: parseCalls(jsonSrcs, tokModes),
 			run: func(i any, c call) outcome {
@@ -546,11 +569,14 @@ func pooledSubjects() []*pooledSubject {
 		})
 	}
 	return []*pooledSubject{
-		{name: "oj.Parse", calls: parseCalls(jsonSrcs, pm), pool: func() *sync.Pool { return ojP },
+		{name: "oj.Parse", calls: parseCalls(jsonSrcs, append(append([]string{}, pm...), "unmarshal", "unmarshalT")), pool: func() *sync.Pool { return ojP },
 			call: func(c call) outcome {
-				return runParse(c, oj.Parse, nil, simpleCB, simpleChan)
+				return runParse(c, oj.Parse, nil, simpleCB, simpleChan, func(b []byte, vp any) error { return oj.Unmarshal(b, vp) })
 			},
-			fresh: func(c call) outcome { p := &oj.Parser{}; return runParse(c, p.Parse, nil, simpleCB, simpleChan) }},
+			fresh: func(c call) outcome {
+				p := &oj.Parser{}
+				return runParse(c, p.Parse, nil, simpleCB, simpleChan, func(b []byte, vp any) error { return p.Unmarshal(b, vp) })
+			}},
 		{name: "oj.Load", calls: parseCalls(jsonSrcs, rm), pool: func() *sync.Pool { return ojP },
 			call: func(c call) outcome {
 				return runParse(c, nil, func(r jsongenReader, a ...any) (any, error) { return oj.Load(r, a...) }, simpleCB, simpleChan)
@@ -558,6 +584,24 @@ func pooledSubjects() []*pooledSubject {
 			fresh: func(c call) outcome {
 				p := &oj.Parser{}
 				return runParse(c, nil, func(r jsongenReader, a ...any) (any, error) { return p.ParseReader(r, a...) }, simpleCB, simpleChan)
+			}},
+		// the pooled parser is shared by the []byte and the reader entry points (and Unmarshal, if it ever
+		// uses the pool): histories that mix them
+		{name: "oj.Parse|Load|Unmarshal", calls: parseCalls(jsonSrcs, []string{"", "reader", "reader1", "readererr", "numfloat", "cbpanic", "unmarshal", "unmarshalT"}), pool: func() *sync.Pool { return ojP },
+			call: func(c call) outcome {
+				return runParse(c, oj.Parse, func(r jsongenReader, a ...any) (any, error) { return oj.Load(r, a...) }, simpleCB, simpleChan, func(b []byte, vp any) error { return oj.Unmarshal(b, vp) })
+			},
+			fresh: func(c call) outcome {
+				p := &oj.Parser{}
+				return runParse(c, p.Parse, func(r jsongenReader, a ...any) (any, error) { return p.ParseReader(r, a...) }, simpleCB, simpleChan, func(b []byte, vp any) error { return p.Unmarshal(b, vp) })
+			}},
+		{name: "sen.Parse|ParseReader|Unmarshal", calls: parseCalls(append(append([]string{}, jsonSrcs...), senSrcs...), []string{"", "reader", "reader1", "readererr", "cbpanic", "unmarshal", "unmarshalT"}), pool: func() *sync.Pool { return senP },
+			call: func(c call) outcome {
+				return runParse(c, sen.Parse, func(r jsongenReader, a ...any) (any, error) { return sen.ParseReader(r, a...) }, simpleCB, simpleChan, func(b []byte, vp any) error { return sen.Unmarshal(b, vp) })
+			},
+			fresh: func(c call) outcome {
+				p := &sen.Parser{}
+				return runParse(c, p.Parse, func(r jsongenReader, a ...any) (any, error) { return p.ParseReader(r, a...) }, simpleCB, simpleChan, func(b []byte, vp any) error { return p.Unmarshal(b, vp) })
 			}},
 		{name: "sen.Parse", calls: parseCalls(append(append([]string{}, jsonSrcs...), senSrcs...), pm), pool: func() *sync.Pool { return senP },
 			call:  func(c call) outcome { return runParse(c, sen.Parse, nil, simpleCB, simpleChan) },
@@ -597,7 +641,9 @@ func pooledSubjects() []*pooledSubject {
 				return wr(func(w *failWriter) error { x := &oj.Writer{Options: oj.DefaultOptions}; return x.Write(w, wv(c)) }, c)
 			}},
 		{name: "sen.String", calls: wcalls, pool: func() *sync.Pool { return senW },
-			call: func(c call) outcome { return guardO(func() outcome { return outcome{res: canonJSON(sen.String(wv(c)))} }) },
+			call: func(c call) outcome {
+				return guardO(func() outcome { return outcome{res: canonJSON(sen.String(wv(c)))} })
+			},
 			fresh: func(c call) outcome {
 				return guardO(func() outcome {
 					w := &sen.Writer{Options: ojg.DefaultOptions}
